@@ -410,14 +410,26 @@ def case_dropna(ctx, s: Subject, nest_name=IDENT_NEST):
     inplace = rng.random() < 0.25
     before = frame_view(nf)
 
+    exact = {}
+
     def run():
         if inplace:
             nf2 = nf.copy()
             assert nf2.dropna(inplace=True, **kw) is None
-            return frame_view(nf2)
-        return frame_view(nf.dropna(**kw))
+        else:
+            nf2 = nf.dropna(**kw)
+        # the records that stay, cell for cell (NaN and null kept apart): read off the result's storage
+        exact["after"] = ctx.driver.call("abs", col=export.export_ext(nf2[nest_name].array))["model"]["col"]["rows"]
+        return frame_view(nf2)
     real = call_real(run)
     ans = ctx.driver.call("frame.dropna", frame=fj, nest=nest_name, **jargs)
+    if "ok" in real and "after" in exact and ans["model"] is not None and "ok" in ans["model"] and not s.hyp.get("hidden"):
+        mrows = next((c[2]["rows"] for c in ans["model"]["ok"]["cols"] if c[0] == nest_name and c[1] == "nest"), None)
+        srows = None if ans["spec"] is None or "ok" not in ans["spec"] else next(
+            (c[2]["rows"] for c in ans["spec"]["ok"]["cols"] if c[0] == nest_name and c[1] == "nest"), None)
+        ctx.case("dropna.nested.exact_cells", {**s.desc(), "labels": labels, "kwargs": kw, "inplace": inplace},
+                 {"ok": exact["after"]}, {"ok": mrows}, None if srows is None else {"ok": srows}, hyp=s.hyp,
+                 features=s.features + ("exact_cells",), nontrivial=s.nontrivial())
     tgt = ctx.driver.call("frame.dropnaTarget", nested=[nest_name, "other"], onNested=kw.get("on_nested"),
                           subset=None if jargs["subset"] is None else [[nest_name, f] for f in jargs["subset"]])["model"]
     ctx.case("dropna.target", {"kwargs": kw}, {"ok": {"nest": nest_name}} if "ok" in real else {"err": True}, tgt, None,
@@ -914,7 +926,23 @@ def case_add_nested_on(ctx):
         index = pd.Index(gen.rand_labels(rng, n, kind="str"))
     nf = NestedFrame({"id": np.arange(n, dtype=np.int64), "key": np.array(keys, dtype=np.int64)}, index=index)
     df = flat_df(flat).reset_index(names="key")
-    real = call_real(lambda: frame_view(nf.add_nested(df, "n", on="key")))
+    kw = {}
+    with_dtype = len(flat["cols"]) > 1 and rng.random() < 0.4
+    if with_dtype:
+        # an explicit dtype that names the table's columns in ANOTHER order, each with its own element type:
+        # a dtype names its fields — every field must still hold the values of the column of that name
+        perm = list(flat["cols"])
+        rng.shuffle(perm)
+        kw["dtype"] = NestedDtype.from_fields({nm: TYPES[t] for nm, t, _ in perm})
+
+    def by_name(v):
+        if "ok" in v:
+            for c in v["ok"]["cols"]:
+                if c[0] == "n" and c[1] == "nest":
+                    c[2]["ty"] = sorted(c[2]["ty"])
+                    c[2]["rows"] = [None if r is None else sorted(r, key=lambda f: f[0]) for r in c[2]["rows"]]
+        return v
+    real = call_real(lambda: frame_view(nf.add_nested(df, "n", on="key", **kw)))
     rows = []
     for k in keys:
         pos = [i for i, l in enumerate(flat["index"]) if l == k]
@@ -922,8 +950,10 @@ def case_add_nested_on(ctx):
     before = frame_view(nf)
     exp = {"index": before["index"], "cls": "NestedFrame", "cols": before["cols"] + [
         ["n", "nest", {"ty": [[nm, t] for nm, t, _ in flat["cols"]], "rows": rows}]]}
-    ctx.case("add_nested.on_column", {"keys": keys, "flat": flat, "index": index_kind}, real, None, {"ok": exp},
-             features=("on", f"index={index_kind}"), nontrivial=len(flat["index"]) > 0)
+    if with_dtype:
+        real, exp = by_name(real), by_name({"ok": exp})["ok"]
+    ctx.case("add_nested.on_column", {"keys": keys, "flat": flat, "index": index_kind, "dtype": str(kw.get("dtype"))}, real, None, {"ok": exp},
+             features=("on", f"index={index_kind}", f"dtype_permuted={with_dtype}"), nontrivial=len(flat["index"]) > 0)
 
 
 def case_from_flat(ctx):
@@ -1209,8 +1239,21 @@ def repr_cell(c):
 
 
 def cells_of_npval(x, t):
-    """numpy array handed to the callback -> weak cells (None for a 0-d/None array)"""
-    if x is None or "scalar" in x:
+    """numpy array handed to the callback -> weak cells (None for a 0-d/None array); an argument that
+    cannot be read as values of the field's type (another column's values arrived in its place) is
+    returned as a marker that equals no expectation"""
+    try:
+        return _cells_of_npval(x, t)
+    except (ValueError, TypeError, KeyError):
+        return {"not_values_of_type": t, "got": repr(x)[:200]}
+
+
+def _cells_of_npval(x, t):
+    if x is None:
+        return None
+    if not isinstance(x, dict) or ("vals" not in x and "scalar" not in x):
+        return {"not_an_array": repr(x)}      # a base cell where a field's list was due: never equal to the expectation
+    if "scalar" in x:
         return None
     out = []
     for v in x["vals"]:
